@@ -127,16 +127,19 @@ def tok_stream(ctx, n):
             cases.append(('hsplit %s' % T(v), ('hsplit', v)))
     out = ctx.model([c[0] for c in cases])
     for i, (line, desc) in enumerate(cases):
-        try:
-            if desc[0] == 'phdr':
-                key, d = parse_header(desc[1])
-                real = (T(key) + ' ' + canon_params(d)).strip()
-            elif desc[0] == 'hsplit':
-                real = ' '.join(T(x) for x in httputil.RE_HEADER_SPLIT.split(desc[1]))
-            else:
-                real = real_helems(desc[1], desc[2])
-        except Exception as e:        # noqa: a tokenizer that raises is an observation
-            real = 'err:' + type(e).__name__
+        def one(desc=desc):
+            try:
+                if desc[0] == 'phdr':
+                    key, d = parse_header(desc[1])
+                    return (T(key) + ' ' + canon_params(d)).strip()
+                if desc[0] == 'hsplit':
+                    return ' '.join(T(x) for x in httputil.RE_HEADER_SPLIT.split(desc[1]))
+                return real_helems(desc[1], desc[2])
+            except Exception as e:        # noqa: a tokenizer that raises is an observation
+                return 'err:' + type(e).__name__
+        real = app.guarded(one)
+        if real == app.SKIPPED:
+            continue
         ctx.case({'tok': list(desc)}, nontrivial=True, key=line)
         ctx.count('tok:%s:%s' % (desc[0], real.split(' ')[0] if desc[0] == 'helems' else ('err' if real.startswith('err:') else 'ok')))
         if real.startswith('err:'):
@@ -261,6 +264,8 @@ class DigestFlow(object):
         self.items = []
 
     def observe(self, case, obs):
+        if obs.get('skipped'):
+            return
         sent = obs.get('sent') or case
         if sent['path'] not in ('/digest', '/d/digest', '/digest/x', '/d/digest/x'):
             return
@@ -278,8 +283,12 @@ class DigestFlow(object):
             return
         if dict((h[0].lower(), h[1]) for h in hs).get('host') != 'localhost:8080':
             return
-        # request.methods_with_bodies: the body is processed (411 without a length) before the tool runs
-        if sent['method'] in ('POST', 'PUT', 'PATCH') and dict((h[0].lower(), h[1]) for h in hs).get('content-length') != str(len(sent.get('body', ''))):
+        # request.methods_with_bodies: the body is processed (411 without a length) before the tool runs; a
+        # Content-Length, when there is one, is the plain number
+        cl = dict((h[0].lower(), h[1]) for h in hs).get('content-length')
+        if cl is not None and cl != str(len(sent.get('body', ''))):
+            return
+        if sent['method'].upper() in ('POST', 'PUT', 'PATCH') and cl is None:
             return
         if obs['status'] >= 598:
             return
@@ -340,6 +349,8 @@ class BasicFlow(object):
         self.items = []
 
     def observe(self, case, obs):
+        if obs.get('skipped'):
+            return
         sent = obs.get('sent') or case
         if sent['path'] not in ('/basic', '/d/basic') or sent.get('qs') or sent.get('body'):
             return
@@ -348,7 +359,7 @@ class BasicFlow(object):
         if any(n not in ('host', 'authorization', 'content-type', 'content-length') for n in names) or names.count('host') != 1:
             return
         hd = dict((h[0].lower(), h[1]) for h in hs)
-        if sent['method'] in ('POST', 'PUT', 'PATCH') and hd.get('content-length') != '0':
+        if sent['method'].upper() in ('POST', 'PUT', 'PATCH') and hd.get('content-length') != '0':
             return
         if hd.get('host') != 'localhost:8080' or names.count('authorization') > 1 or hd.get('content-length', '0') != '0' \
                 or hd.get('content-type', 'application/x-www-form-urlencoded') != 'application/x-www-form-urlencoded':
@@ -405,12 +416,16 @@ def dinit_stream(ctx, n):
         cases.append((d, hdr))
     out = ctx.model([('dinit ' + fields_of(d)).strip() for d, _ in cases])
     for i, (d, hdr) in enumerate(cases):
-        try:
-            auth_digest.HttpDigestAuthorization(hdr, 'GET')
-            real = 'ok'
-        except Exception as e:      # noqa
-            from . import c07
-            real = 'err:' + c07._cls_name(e)
+        def one(hdr=hdr):
+            try:
+                auth_digest.HttpDigestAuthorization(hdr, 'GET')
+                return 'ok'
+            except Exception as e:      # noqa
+                from . import c07
+                return 'err:' + c07._cls_name(e)
+        real = app.guarded(one)
+        if real == app.SKIPPED:
+            continue
         ctx.case({'dinit': d}, nontrivial=True, key='dinit ' + json.dumps(d, sort_keys=True))
         ctx.count('dinit:' + real)
         if out is None:
@@ -441,7 +456,10 @@ def respenc_stream(ctx, n):
     out = ctx.model(['respenc %d %s' % (1 if p else 0, T(s)) for p, s in cases])
     cls_out = ctx.model(['respcls %s' % T(s) for _, s in cases])
     for i, (p11, s) in enumerate(cases):
-        kind, val = c07.resp_encode_real(p11, s)
+        r = c07.resp_encode_real(p11, s)
+        if r == app.SKIPPED:
+            continue
+        kind, val = r
         real = 'ok ' + (val.hex() or '-') if kind == 'ok' else 'err:' + val
         ctx.case({'respenc': [p11, s]}, nontrivial=True, key='respenc %s %s' % (p11, T(s)))
         ctx.count('respenc:%s:%s' % ('1.1' if p11 else '1.0', kind))
@@ -630,13 +648,18 @@ def bind_stream(ctx, n):
                 fails = 1
             cherrypy.serving.request = types.SimpleNamespace(
                 body=types.SimpleNamespace(params={k: 'v' for k, b in keys if b}), show_mismatched_params=True)
-            try:
-                _cpdispatch.test_callable_spec(h, pos, kw)
-                spec = 'reraise'
-            except cherrypy.HTTPError as e:
-                spec = 'http:%d' % e.status
-            except Exception as e:      # noqa: the class is the observation
-                spec = 'exc:' + type(e).__name__
+
+            def one(h=h, pos=pos, kw=kw):
+                try:
+                    _cpdispatch.test_callable_spec(h, pos, kw)
+                    return 'reraise'
+                except cherrypy.HTTPError as e:
+                    return 'http:%d' % e.status
+                except Exception as e:      # noqa: the class is the observation
+                    return 'exc:' + type(e).__name__
+            spec = app.guarded(one, 'exc:Hang')
+            if spec == app.SKIPPED:
+                continue
             status = 200 if not fails else (500 if spec == 'reraise' else int(spec[5:]) if spec.startswith('http:') else 500)
             real = '%d %s %d' % (fails, spec, status)
             ctx.case({'bind': lines[i]}, nontrivial=True, key=lines[i])
@@ -690,7 +713,7 @@ def dispatch_e2e(ctx, n):
     out = ctx.model([l for _, l in cases])
     for i, (req, line) in enumerate(cases):
         obs = c07.check_request(ctx, req)
-        if out is None or obs['status'] >= 598:
+        if out is None or obs['status'] >= 598 or obs.get('skipped'):
             continue
         ctx.compared()
         want = out[i].split(' ')[-1]
@@ -715,14 +738,16 @@ def real_trailers(lines):
     import cherrypy
     from cherrypy import _cpreqbody
     from . import c07
-    r = _cpreqbody.SizedReader(_TrailerFp(lines), None, 0, has_trailers=True)
-    try:
-        r.finish()
-        return 'ok'
-    except cherrypy.HTTPError as e:
-        return 'http:%d' % e.status
-    except Exception as e:      # noqa: the class is the observation
-        return 'err:' + c07._cls_name(e)
+    def one():
+        r = _cpreqbody.SizedReader(_TrailerFp(lines), None, 0, has_trailers=True)
+        try:
+            r.finish()
+            return 'ok'
+        except cherrypy.HTTPError as e:
+            return 'http:%d' % e.status
+        except Exception as e:      # noqa: the class is the observation
+            return 'err:' + c07._cls_name(e)
+    return app.guarded(one)
 
 
 def trailer_stream(ctx, n):
@@ -740,6 +765,8 @@ def trailer_stream(ctx, n):
     out = ctx.model(['trailers %s' % (','.join(l.hex() for l in ls) or '_') for ls in cases])
     for i, ls in enumerate(cases):
         real = real_trailers(ls)
+        if real == app.SKIPPED:
+            continue
         ctx.case({'trailers': [l.decode('latin-1') for l in ls]}, nontrivial=True, key='trailers ' + repr(ls))
         ctx.count('trailers:' + real)
         if real.startswith('err:'):
@@ -777,10 +804,14 @@ def unq_stream(ctx, n):
         cases.append(b''.join(gen.pick(rng, UNQ_ALPHABET + [b'%', b'%', b'%c3', b'%a9']) for _i in range(rng.choice([0, 1, 2, 3, 5, 9]))))
     out = ctx.model(['unq %s' % (c.hex() or '-') for c in cases])
     for i, c in enumerate(cases):
-        try:
-            real = unquote_plus(c).hex() or '-'
-        except Exception as e:      # noqa
-            real = 'err:' + type(e).__name__
+        def one(c=c):
+            try:
+                return unquote_plus(c).hex() or '-'
+            except Exception as e:      # noqa
+                return 'err:' + type(e).__name__
+        real = app.guarded(one)
+        if real == app.SKIPPED:
+            continue
         ctx.case({'unq': c.decode('latin-1')}, nontrivial=True, key='unq ' + c.hex())
         ctx.count('unq:' + ('err' if real.startswith('err:') else 'ok'))
         if real.startswith('err:'):
